@@ -44,6 +44,17 @@ func workerMain(mode string) {
 		os.Exit(3)
 	}
 	debug.SetGCPercent(100)
+	// a worker stuck in a call that never returns (only possible with a broken library) must not outlive the test
+	// process that started it: leave as soon as the parent is gone
+	parent := os.Getppid()
+	go func() {
+		for {
+			time.Sleep(2 * time.Second)
+			if os.Getppid() != parent {
+				os.Exit(4)
+			}
+		}
+	}()
 	if v := os.Getenv("VERIF_MAXSTACK"); v != "" {
 		// used only by reproductions of known findings: a smaller goroutine stack limit shows the same
 		// unbounded recursion with a proportionally smaller input
